@@ -650,3 +650,156 @@ example : (1/2 : ℝ) ≤ tnrOf [(1, true), (2, false), (2, true), (3, false)] 1
 example : (1/2 : ℝ) ≤ tprOf [(1, true), (2, false), (2, true), (3, false)] 1 ∧
     ¬ (1/2 : ℝ) ≤ tprOf [(1, true), (2, false), (2, true), (3, false)] 0 := by
   constructor <;> norm_num [tprOf, tpOf, posCount]
+
+/-! ## the code's `f_beta` route -/
+
+theorem argmaxPosK_spec (f : ℕ → ℝ) (ok : ℕ → Bool) : ∀ n : ℕ,
+    (∀ b, argmaxPosK f ok n = some b → b ≤ n ∧ ok b = true ∧ ∀ i, i ≤ n → ok i = true → f i ≤ f b) ∧
+    (argmaxPosK f ok n = none → ∀ i, i ≤ n → ok i = false) := by
+  intro n
+  induction n with
+  | zero =>
+    unfold argmaxPosK
+    by_cases h : ok 0 = true
+    · simp only [h, if_true]
+      refine ⟨?_, by simp⟩
+      intro b hb; cases hb
+      refine ⟨le_refl _, h, fun i hi hoki => ?_⟩
+      have : i = 0 := by omega
+      subst this; exact le_refl _
+    · have h' : ok 0 = false := by simpa using h
+      simp only [h', Bool.false_eq_true, if_false]
+      refine ⟨by simp, fun _ i hi => ?_⟩
+      have : i = 0 := by omega
+      subst this; exact h'
+  | succ n ih =>
+    obtain ⟨ih1, ih2⟩ := ih
+    unfold argmaxPosK
+    cases hprev : argmaxPosK f ok n with
+    | none =>
+      have hn := ih2 hprev
+      by_cases h : ok (n + 1) = true
+      · simp only [h, if_true]
+        refine ⟨?_, by simp⟩
+        intro b hb; cases hb
+        refine ⟨le_refl _, h, fun i hi hoki => ?_⟩
+        by_cases hin : i ≤ n
+        · have := hn i hin; rw [this] at hoki; cases hoki
+        · have : i = n + 1 := by omega
+          subst this; exact le_refl _
+      · have h' : ok (n + 1) = false := by simpa using h
+        simp only [h', Bool.false_eq_true, if_false]
+        refine ⟨by simp, fun _ i hi => ?_⟩
+        by_cases hin : i ≤ n
+        · exact hn i hin
+        · have : i = n + 1 := by omega
+          subst this; exact h'
+    | some b =>
+      obtain ⟨hb1, hb2, hb3⟩ := ih1 b hprev
+      by_cases hc : (ok (n + 1) && decide (f b < f (n + 1))) = true
+      · simp only [hc, if_true]
+        refine ⟨?_, by simp⟩
+        intro b' hb'; cases hb'
+        simp only [Bool.and_eq_true, decide_eq_true_eq] at hc
+        refine ⟨le_refl _, hc.1, fun i hi hoki => ?_⟩
+        by_cases hin : i ≤ n
+        · exact le_trans (hb3 i hin hoki) hc.2.le
+        · have : i = n + 1 := by omega
+          subst this; exact le_refl _
+      · simp only [hc, Bool.false_eq_true, if_false]
+        refine ⟨?_, by simp⟩
+        intro b' hb'; cases hb'
+        refine ⟨by omega, hb2, fun i hi hoki => ?_⟩
+        by_cases hin : i ≤ n
+        · exact hb3 i hin hoki
+        · have : i = n + 1 := by omega
+          subst this
+          simp only [Bool.and_eq_true, decide_eq_true_eq, not_and, not_lt] at hc
+          exact hc hoki
+
+/-- the F-beta value of a threshold, by the code's formula -/
+noncomputable def fbetaOf (beta : ℝ) (l : List (ℝ × Bool)) (t : ℝ) : ℝ :=
+  fbetaFromCounts beta (tpOf l t) (fpOf l t) (posCount l)
+
+theorem fb_nonneg (b P R : ℝ) (hP : 0 ≤ P) (hR : 0 ≤ R) :
+    0 ≤ (if b * b * P + R ≤ 0 ∧ 0 ≤ b * b * P + R then (0:ℝ) else (1 + b * b) * (P * R) / (b * b * P + R)) := by
+  split
+  · exact le_refl _
+  · apply div_nonneg
+    · exact mul_nonneg (by nlinarith [mul_self_nonneg b]) (mul_nonneg hP hR)
+    · exact add_nonneg (mul_nonneg (mul_self_nonneg b) hP) hR
+
+theorem fbetaFromCounts_nonneg (beta : ℝ) (tp fp nPos : ℕ) : 0 ≤ fbetaFromCounts beta tp fp nPos := by
+  unfold fbetaFromCounts
+  simp only [ofNat_real]
+  have hp : (0:ℝ) ≤ (if tp + fp = 0 then (0:ℝ) else (tp : ℝ) / ((tp + fp : ℕ) : ℝ)) := by
+    split
+    · exact le_refl _
+    · exact div_nonneg (Nat.cast_nonneg _) (Nat.cast_nonneg _)
+  have hr : (0:ℝ) ≤ (if nPos = 0 then (1:ℝ) else (tp : ℝ) / (nPos : ℝ)) := by
+    split
+    · norm_num
+    · exact div_nonneg (Nat.cast_nonneg _) (Nat.cast_nonneg _)
+  exact fb_nonneg beta _ _ hp hr
+
+theorem fbetaFromCounts_zero (beta : ℝ) (nPos : ℕ) : fbetaFromCounts beta 0 0 nPos = 0 := by
+  unfold fbetaFromCounts
+  simp only [ofNat_real, Nat.cast_zero, add_zero, if_true, zero_mul, mul_zero, zero_div]
+  split <;> simp
+
+/-- **`f_beta` as coded is optimal**: the stored threshold attains the largest F-beta value (the code's formula,
+`NaN → 0` included) that any real threshold attains on the validation pairs -/
+theorem C16_code_fbeta_optimal (beta : ℝ) (l : List (ℝ × Bool)) (hne : l ≠ []) :
+    ∃ i thr, calibrateFbetaCode beta l = some (i, thr) ∧ ∀ t : ℝ, fbetaOf beta l t ≤ fbetaOf beta l thr := by
+  unfold calibrateFbetaCode
+  set s := sortByDist l with hsdef
+  have hs := sorted_sortByDist l
+  have hperm : l.Perm s := (List.mergeSort_perm l _).symm
+  have hlen : 1 ≤ s.length := by
+    rw [← hperm.length_eq]; exact List.length_pos_iff.mpr hne
+  have hpos : posCount l = tpAt s s.length := by rw [tpAt_length]; exact (counts_perm l s hperm 0).2.2.2
+  simp only
+  set n := s.length with hn
+  set f : ℕ → ℝ := fun j => fbetaFromCounts beta (tpAt s (n - j)) (fpAt s (n - j)) (tpAt s n) with hf
+  set ok : ℕ → Bool := fun j => decide (1 ≤ n - j) && realisablePos s (n - j) with hok
+  obtain ⟨sp1, sp2⟩ := argmaxPosK_spec f ok n
+  -- value of any threshold that splits at position i
+  have hval : ∀ (t : ℝ) (i : ℕ), (∀ p ∈ s.take i, p.1 ≤ t) → (∀ p ∈ s.drop i, ¬ p.1 ≤ t) →
+      fbetaOf beta l t = fbetaFromCounts beta (tpAt s i) (fpAt s i) (tpAt s n) := by
+    intro t i h1 h2
+    have hc := counts_split s t i h1 h2
+    unfold fbetaOf
+    rw [(counts_perm l s hperm t).1, (counts_perm l s hperm t).2.1, hc.1, hc.2, hpos]
+  cases hres : argmaxPosK f ok n with
+  | none =>
+    have := sp2 hres 0 (Nat.zero_le _)
+    simp only [hok, Nat.sub_zero, Bool.and_eq_false_iff, decide_eq_false_iff_not] at this
+    rcases this with h | h
+    · omega
+    · simp [realisablePos, hn] at h
+  | some b =>
+    obtain ⟨hb1, hb2, hb3⟩ := sp1 b hres
+    simp only [hok, Bool.and_eq_true, decide_eq_true_eq] at hb2
+    obtain ⟨hsb1, hsb2⟩ := thrAtPos_split s hs (n - b) (by omega) hb2.2
+    refine ⟨n - b, thrAtPos s (n - b), by simp, ?_⟩
+    intro t
+    obtain ⟨i, hi, hri, h1, h2⟩ := exists_realisable_split s hs t
+    rw [hval t i h1 h2, hval _ (n - b) hsb1 hsb2]
+    by_cases hi0 : i = 0
+    · subst hi0
+      have : fbetaFromCounts beta (tpAt s 0) (fpAt s 0) (tpAt s n) = 0 := by
+        simp only [tpAt, fpAt, List.take_zero, List.filter_nil, List.length_nil]; exact fbetaFromCounts_zero beta _
+      rw [this]; exact fbetaFromCounts_nonneg _ _ _ _
+    · have hj : ok (n - i) = true := by
+        simp only [hok, Bool.and_eq_true, decide_eq_true_eq]
+        have : n - (n - i) = i := by omega
+        rw [this]; exact ⟨by omega, hri⟩
+      have := hb3 (n - i) (by omega) hj
+      simp only [hf] at this
+      have e : n - (n - i) = i := by omega
+      rw [e] at this
+      exact this
+
+/-- non-vacuity: the optimum is strictly better than accepting everything on a set with a far negative pair -/
+example : fbetaOf 1 [(1, true), (2, true), (3, false)] 3 < fbetaOf 1 [(1, true), (2, true), (3, false)] 2 := by
+  norm_num [fbetaOf, fbetaFromCounts, tpOf, fpOf, posCount]
